@@ -294,3 +294,27 @@ def ipsc_frame(rng, burst33, slot_type, frame_type=0x1111, colour_code=1, timesl
             + (b"\x11\x11" if timeslot == 1 else b"\x22\x22") + slot_type.to_bytes(2, "little") + bytes([colour_code | colour_code << 4] * 2)
             + frame_type.to_bytes(2, "little") + rbytes(rng, 2) + byteswap_bytes(bytes(burst33) + b"\x00") + rbytes(rng, 2) + bytes([call_type])
             + (dst << 8).to_bytes(4, "little") + (src << 8).to_bytes(4, "little") + rbytes(rng, 1))
+
+
+class ambient_numeric_context:
+    """the application around the library has numeric settings of its own: a decimal context with little precision and
+    another rounding mode, numpy told to raise on floating-point errors.  A codec result may not depend on them; entered for a
+    share of the calls of the numeric checks, restored afterwards"""
+
+    def __enter__(self):
+        import decimal
+        import numpy
+        self.d = decimal.getcontext().copy()
+        self.n = numpy.geterr()
+        c = decimal.getcontext()
+        c.prec, c.rounding = 5, decimal.ROUND_UP
+        c.traps[decimal.Inexact] = False
+        numpy.seterr(all="raise")
+        return self
+
+    def __exit__(self, *exc):
+        import decimal
+        import numpy
+        decimal.setcontext(self.d)
+        numpy.seterr(**self.n)
+        return False
